@@ -48,6 +48,8 @@ func callRT(fr *frame, fn *ssa.Function, args []value) (value, bool) {
 	switch fn.Name() {
 	case "Symbolic":
 		return true, true
+	case "PrintStack":
+		return nil, true
 	case "Thorough":
 		return fr.i.thorough, true
 	case "U64":
